@@ -73,7 +73,7 @@ Record heap_report := {
 }.
 
 Definition inv_check (v : heap_view) (roots : list Z) : heap_report + string :=
-  let nblocks := Z.to_nat ((limit v - base v) / BLK) in
+  let nblocks := Z.to_nat (Z.max 0 ((hv_high v - base v) / BLK) + 4) in
   match chain (S nblocks) v false (hv_heap v) (PMc.empty unit) [] with
   | inr e => inr ("reuse list: " ++ e)%string
   | inl None => inr "reuse list: impossible"
